@@ -93,10 +93,12 @@ func (fs *filestore) Add(bucket string, filename string, contents []byte, meta *
 	if err := os.WriteFile(f, contents, 0666); err != nil {
 		return fmt.Errorf("could not write:  %s: %w", f, err)
 	}
+	verifPoint("fs.add.afterContent", lockName(bucket, filename))
 
 	// Force a new modification time, since this is what Generation is based on.
 	now := time.Now().UTC()
 	_ = os.Chtimes(f, now, now)
+	verifPoint("fs.add.afterMtime", lockName(bucket, filename))
 
 	InitScrubbedMeta(meta, filename)
 	meta.Metageneration = 1
